@@ -89,8 +89,9 @@ def s_connect(ex, st, recv, args, kw, e):
     ex.split_raise(st, absent, "ValueError")
     # type() of an existing node without a type attribute raises KeyError (only reachable on untyped graphs)
     untyped = z3.Or(z3.Exists([x], z3.And(vs.mem(x), z3.Not(z3.Select(g.hasty, x)))), z3.Exists([x], z3.And(us.mem(x), z3.Not(z3.Select(g.hasty, x)))))
-    if ex.feasible(st, untyped):
-        raise Unsupported("connect on a graph with untyped nodes is outside the contract (requires typed(self))")
+    # precondition of the contract (a call site must establish it): the nodes involved are typed
+    ex.oblige(st, "Circuit.connect-requires-typed-nodes", z3.Not(untyped), "pre-of-callee", getattr(e, "lineno", None))
+    st.pc.append(z3.Not(untyped))
     len_us_gt1 = z3.Not(_at_most_one(ctx, us))
     len_vs_gt1 = z3.Not(_at_most_one(ctx, vs))
     fi_nonempty = lambda v: z3.Exists([x], g.edge(x, v))
@@ -165,8 +166,8 @@ def _all_present(ex, st, g, ns, exc="KeyError"):
         ex.split_raise(st, z3.Not(g.node(ns.elems[0])), exc)
     else:
         absent = z3.Exists([x], z3.And(ns.mem(x), z3.Not(g.node(x))))
-        if ex.feasible(st, absent):
-            raise Unsupported("iterable argument with a possibly absent node (variant not under contract; requires ns <= N)")
+        ex.oblige(st, "setter-requires-present-nodes", z3.Not(absent), "pre-of-callee")
+        st.pc.append(z3.Not(absent))
 
 
 def s_set_output(ex, st, recv, args, kw, e):
